@@ -4,6 +4,7 @@ Everything here works on source text only (``ast`` for .py, Cython's own
 parser for .pyx via :mod:`sa.pyxfront`); no enspara code is imported or run.
 """
 import ast
+import copy
 import os
 import re
 import hashlib
@@ -115,6 +116,7 @@ class Repo:
         self._pyx_loaded = False
         self.renames = {}
         self.equivalent = {}
+        self.inlined = {}
         if os.environ.get('VERIF_NO_RENAME') != '1':
             for rel in list(self.modules):
                 self._normalise(rel)
@@ -160,14 +162,32 @@ class Repo:
             rmod = Module(rel, rsrc, rtree, cur.kind)
             sigs = self._ref_signatures()
             spliced = []
+            spliced_any = False
             cur_fns = _all_functions(cur.tree)
             ref_fns = dict(_all_functions(rmod.tree))
+            from . import inline
+            try:
+                hf, hm = inline.new_private_helpers(cur.tree, rmod.tree)
+            except Exception:
+                hf, hm = {}, {}
             for key, (fn, holder, idx) in cur_fns:
                 if key not in ref_fns:
                     continue
                 rfn = ref_fns[key][0]
                 if ast.dump(fn) == ast.dump(rfn):
                     continue
+                # undo "extract private helper": helpers that the reference does not have are inlined
+                if hf or hm:
+                    try:
+                        clone = copy.deepcopy(fn)
+                        inl = inline.Inliner(hf, hm, cls=key[0].split('.')[0] if '.' in key[0] else None)
+                        if inl.run(clone):
+                            holder[idx] = clone
+                            fn = clone
+                            self.inlined.setdefault(rel, {})[key[0]] = sorted(set(inl.done))
+                            spliced_any = True
+                    except Exception as e:
+                        self.errors.append((rel + ' (inlining %s)' % key[0], repr(e)))
                 try:
                     same = normal.nf_key(fn, sigs) == normal.nf_key(rfn, sigs)
                 except Exception:
@@ -176,7 +196,7 @@ class Repo:
                     rfn.decorator_list = fn.decorator_list
                     holder[idx] = rfn
                     spliced.append(key[0])
-            if spliced:
+            if spliced or spliced_any:
                 ast.fix_missing_locations(cur.tree)
                 cur = Module(rel, cur.src, cur.tree, cur.kind)
                 self.modules[rel] = cur
